@@ -24,7 +24,7 @@ type Meta struct {
 	ExpectKey  string   `json:"expect_key_contains"`
 	Clears     string   `json:"clears_key_contains"` // mutant that must make a finding disappear
 	Needs      string   `json:"needs"`
-	Tier       string   `json:"tier"` // "thorough" if the mutant only shows in a configuration of the thorough tier
+	Tier       string   `json:"tier"`    // "thorough" if the mutant only shows in a configuration of the thorough tier
 	Retired    string   `json:"retired"` // why a stored change no longer breaks the property (it is skipped)
 }
 
